@@ -407,9 +407,21 @@ fn usage_contradict(a: u8, b: u8) -> bool {
 }
 
 /// Word x Word, both orders decided at once (a, b symbolic over all of D's words).
+/// A word of D whose fixed-size usage (bool, address, selector, function) may also come WITHOUT a known width: evidence
+/// of a usage alone is what the inference rules emit before any width is known.
+fn word_any_width<S: Src>(s: &mut S) -> TE {
+    let (wc, uc) = (s.u8(), s.u8());
+    s.assume(wc < 6 && uc < 8);
+    match usage_of(uc).size() {
+        Some(sz) => s.assume(WIDTHS[wc as usize] == Some(sz) || WIDTHS[wc as usize].is_none()),
+        None => {}
+    }
+    TE::Word { width: WIDTHS[wc as usize], usage: usage_of(uc) }
+}
+
 pub fn join_word_word<S: Src>(s: &mut S) {
-    let a = elem(s, K_WORD);
-    let b = elem(s, K_WORD);
+    let a = word_any_width(s);
+    let b = word_any_width(s);
     let (wa, ua, wb, ub) = match (&a, &b) {
         (TE::Word { width: wa, usage: ua }, TE::Word { width: wb, usage: ub }) => {
             (width_code(*wa), usage_code(*ua), width_code(*wb), usage_code(*ub))
